@@ -274,7 +274,6 @@ func (r *renderState) postBlock(source []byte, cursor *Cursor) bool {
 }
 
 func (r *renderState) preInline(source []byte, inline *Inline) bool {
-	const hardLineBreak = "<br>\n"
 	switch inline.Kind() {
 	case TextKind, UnparsedKind:
 		r.dst = escapeHTML(r.dst, spanSlice(source, inline.Span()))
@@ -294,7 +293,8 @@ func (r *renderState) preInline(source []byte, inline *Inline) bool {
 	case SoftLineBreakKind:
 		switch r.SoftBreakBehavior {
 		case SoftBreakHarden:
-			r.dst = append(r.dst, hardLineBreak...)
+			r.openTag(atom.Br)
+			r.dst = append(r.dst, '\n')
 		case SoftBreakSpace:
 			r.dst = append(r.dst, ' ')
 		default:
@@ -306,7 +306,8 @@ func (r *renderState) preInline(source []byte, inline *Inline) bool {
 		}
 		return false
 	case HardLineBreakKind:
-		r.dst = append(r.dst, hardLineBreak...)
+		r.openTag(atom.Br)
+		r.dst = append(r.dst, '\n')
 		return false
 	case EmphasisKind:
 		r.openTag(atom.Em)
